@@ -7,7 +7,9 @@ import (
 	"github.com/spf13/viper"
 
 	"github.com/dappledger/AnnChain/gemmill/blockchain"
+	crypto "github.com/dappledger/AnnChain/gemmill/go-crypto"
 	"github.com/dappledger/AnnChain/gemmill/p2p"
+	"github.com/dappledger/AnnChain/gemmill/refuse_list"
 	"github.com/dappledger/AnnChain/gemmill/state"
 	"github.com/dappledger/AnnChain/gemmill/types"
 )
@@ -23,3 +25,13 @@ func (a *Angine) VerifState() *state.State { return a.stateMachine }
 
 // VerifBlockStore returns the engine's block store.
 func (a *Angine) VerifBlockStore() *blockchain.BlockStore { return a.blockstore }
+
+// VerifRefuseListFilter / VerifAddToRefuselist expose the closures the engine
+// installs on its p2p switch for the refuse list.
+func VerifRefuseListFilter(rl *refuse_list.RefuseList) func(crypto.PubKey) error {
+	return refuseListFilter(rl)
+}
+
+func VerifAddToRefuselist(rl *refuse_list.RefuseList) func([]byte) error {
+	return addToRefuselist(rl)
+}
